@@ -1,4 +1,6 @@
 import StrettoModel.Proofs.Cache
+import StrettoModel.Proofs.Agree
+import StrettoModel.Model.Lts
 /-!
 # C12 — close() is final, idempotent and leaves no worker behind
 
@@ -78,6 +80,240 @@ theorem late_waiter_does_not_block (c : Cache) (id : Nat) (hc : c.closed = true)
     c.mayReturn id true = true := by
   simp [Cache.mayReturn, hc]
 
+-- the processor never touches `is_closed` -----------------------------------------------------------
+
+theorem evictVictims_closed (vs : List (Nat × Int)) (c : Cache) : (c.evictVictims vs).closed = c.closed := by
+  induction vs generalizing c with
+  | nil => rfl
+  | cons p rest ih =>
+    obtain ⟨vk, vc⟩ := p
+    simp only [Cache.evictVictims]
+    cases (c.store.tryRemove vk 0).2 with
+    | none => exact ih c
+    | some e =>
+      simp only
+      split
+      · rw [ih]; simp
+      · rw [ih]
+
+theorem handleItem_closed (c : Cache) (su : Nat → Nat → Bool) (est : Nat → Int)
+    (refills : List (List (Nat × Int))) (it : Item) :
+    (c.handleItem su est refills it).closed = c.closed := by
+  cases it with
+  | wait w => rfl
+  | update k cost ext => simp [Cache.handleItem]
+  | delete k cf =>
+    simp only [Cache.handleItem]
+    cases (c.store.tryRemove k cf).2 <;> (simp only; split <;> simp)
+  | new k cf cost v exp =>
+    simp only [Cache.handleItem]
+    split <;> (try rw [evictVictims_closed]) <;> (split <;> (try split) <;> simp)
+
+theorem admitPending_closed (c : Cache) : c.admitPending.closed = c.closed := by
+  unfold Cache.admitPending
+  cases c.pendingSends with
+  | nil => rfl
+  | cons it rest => simp only; split <;> rfl
+
+theorem drain_closed (items : List Item) (c : Cache) : (items.foldl Cache.drainItem c).closed = c.closed := by
+  induction items generalizing c with
+  | nil => rfl
+  | cons it rest ih =>
+    simp only [List.foldl_cons]; rw [ih]
+    cases it <;> simp [Cache.drainItem]
+
+theorem sweepKeys_closed (keys : List (Nat × Nat)) (c : Cache) (now : Nat) (acc : List CB) :
+    (c.sweepKeys now keys acc).1.closed = c.closed := by
+  induction keys generalizing c acc with
+  | nil => rfl
+  | cons p rest ih =>
+    obtain ⟨k, cf⟩ := p
+    simp only [Cache.sweepKeys]
+    rw [ih]
+    unfold Cache.sweepOne
+    cases c.store.expiration k with
+    | none => rfl
+    | some t =>
+      simp only; split
+      · cases (c.store.tryRemove k cf).2 <;> simp
+      · rfl
+
+theorem deliverEvictions_closed (cbs : List CB) (c : Cache) : (c.deliverEvictions cbs).closed = c.closed := by
+  induction cbs generalizing c with
+  | nil => rfl
+  | cons cb rest ih =>
+    simp only [Cache.deliverEvictions]
+    rw [ih]
+    cases cb with
+    | exit v => rfl
+    | reject k cf v cost => rfl
+    | evict k cf v cost => simp only; split <;> simp
+
+/-- `is_closed` is never reset, by anybody -/
+theorem step_closed_mono (su : Nat → Nat → Bool) (c c' : Cache) (a : Act) (hs : c.step su a = some c')
+    (h : c.closed = true) : c'.closed = true := by
+  have inert := closed_ops_inert c h su
+  cases a with
+  | insert k cf v cost ttl now coster only =>
+    simp only [Cache.step, (inert k cf v cost ttl now coster only 0).1, Option.some.injEq] at hs
+    subst hs; exact h
+  | get k cf now =>
+    simp only [Cache.step, (inert k cf 0 0 0 now 0 false 0).2.1, Option.some.injEq] at hs
+    subst hs; exact h
+  | getMut k cf now v =>
+    simp only [Cache.step, (inert k cf v 0 0 now 0 false 0).2.2.1, Option.some.injEq] at hs
+    subst hs; exact h
+  | remove k cf =>
+    simp only [Cache.step, (inert k cf 0 0 0 0 0 false 0).2.2.2.1, Option.some.injEq] at hs
+    subst hs; exact h
+  | waitEnq w =>
+    simp only [Cache.step, (inert 0 0 0 0 0 0 0 false w).2.2.2.2.1, Option.some.injEq] at hs
+    subst hs; exact h
+  | clearReq w =>
+    simp only [Cache.step, (inert 0 0 0 0 0 0 0 false w).2.2.2.2.2.1, Option.some.injEq] at hs
+    subst hs; exact h
+  | closeBegin w =>
+    simp only [Cache.step, (inert 0 0 0 0 0 0 0 false w).2.2.2.2.2.2, Option.some.injEq] at hs
+    subst hs; exact h
+  | updateMaxCost mc =>
+    simp only [Cache.step, Option.some.injEq] at hs
+    subst hs; exact h
+  | procItem est refills =>
+    simp only [Cache.step, Cache.procItem] at hs
+    split at hs
+    · cases hs
+    · split at hs
+      · cases hs
+      · simp only [Option.some.injEq] at hs; subst hs
+        rw [handleItem_closed, admitPending_closed]; exact h
+  | procClear =>
+    simp only [Cache.step, Cache.procClear] at hs
+    split at hs
+    · cases hs
+    · split at hs
+      · cases hs
+      · simp only [Option.some.injEq] at hs; subst hs
+        simp only []
+        rw [drain_closed]; exact h
+  | procTick now order =>
+    simp only [Cache.step, Cache.procTick] at hs
+    split at hs
+    · cases hs
+    · simp only [Option.some.injEq] at hs; subst hs
+      rw [deliverEvictions_closed, sweepKeys_closed]; exact h
+  | procStop =>
+    simp only [Cache.step, Cache.procStop] at hs
+    split at hs
+    · cases hs
+    · simp only [Option.some.injEq] at hs; subst hs; exact h
+  | policyWorker =>
+    simp only [Cache.step, Cache.policyWorkerStep] at hs
+    cases hp : c.pq with
+    | nil => simp [hp] at hs
+    | cons b rest =>
+      simp only [hp, Option.map_some, Option.some.injEq] at hs
+      subst hs; exact h
+  | policyClose =>
+    simp only [Cache.step, Option.some.injEq] at hs
+    subst hs; exact h
+
+theorem run_closed_mono (su : Nat → Nat → Bool) (acts : List Act) (c : Cache) (h : c.closed = true) :
+    (Cache.run su c acts).closed = true := by
+  induction acts generalizing c with
+  | nil => exact h
+  | cons a rest ih =>
+    simp only [Cache.run]
+    apply ih
+    cases hs : c.step su a with
+    | none => exact h
+    | some c' => exact step_closed_mono su c c' a hs h
+
+/-- the part of the state a user can observe or that later behaviour depends on, minus what the policy
+worker and `update_max_cost` may still touch after a close (the queue of get batches, the
+`policy closed` flag, `max_cost`) -/
+def frozen (c : Cache) :=
+  (c.store, c.lfu.costs, c.lfu.used, c.buf, c.pendingSends, c.clearQ, c.ring, c.metrics, c.released, c.cbs)
+
+/-- **close() is final, over every later history**: once `is_closed` is set and the processor has
+taken its stop iteration, *no* run — any number of clients calling anything, late ticks, the policy
+worker draining, further `close()` calls — changes the store, the charges, the buffer, the metrics,
+the released set or the callback log any more, and the two flags stay set for ever. -/
+theorem closed_is_final (su : Nat → Nat → Bool) (acts : List Act) :
+    ∀ (c : Cache), c.closed = true → c.procExited = true →
+      (Cache.run su c acts).closed = true ∧ (Cache.run su c acts).procExited = true ∧
+      frozen (Cache.run su c acts) = frozen c := by
+  induction acts with
+  | nil => intro c hc he; exact ⟨hc, he, rfl⟩
+  | cons a rest ih =>
+    intro c hc he
+    simp only [Cache.run]
+    have key : ∀ c1, c.step su a = some c1 → c1.closed = true ∧ c1.procExited = true ∧ frozen c1 = frozen c := by
+      intro c1 hs
+      have inert := closed_ops_inert c hc su
+      have dead := exited_processor_is_inert c he su
+      cases a with
+      | insert k cf v cost ttl now coster only =>
+        simp only [Cache.step, (inert k cf v cost ttl now coster only 0).1, Option.some.injEq] at hs
+        subst hs; exact ⟨hc, he, rfl⟩
+      | get k cf now =>
+        simp only [Cache.step, (inert k cf 0 0 0 now 0 false 0).2.1, Option.some.injEq] at hs
+        subst hs; exact ⟨hc, he, rfl⟩
+      | getMut k cf now v =>
+        simp only [Cache.step, (inert k cf v 0 0 now 0 false 0).2.2.1, Option.some.injEq] at hs
+        subst hs; exact ⟨hc, he, rfl⟩
+      | remove k cf =>
+        simp only [Cache.step, (inert k cf 0 0 0 0 0 false 0).2.2.2.1, Option.some.injEq] at hs
+        subst hs; exact ⟨hc, he, rfl⟩
+      | waitEnq w =>
+        simp only [Cache.step, (inert 0 0 0 0 0 0 0 false w).2.2.2.2.1, Option.some.injEq] at hs
+        subst hs; exact ⟨hc, he, rfl⟩
+      | clearReq w =>
+        simp only [Cache.step, (inert 0 0 0 0 0 0 0 false w).2.2.2.2.2.1, Option.some.injEq] at hs
+        subst hs; exact ⟨hc, he, rfl⟩
+      | closeBegin w =>
+        simp only [Cache.step, (inert 0 0 0 0 0 0 0 false w).2.2.2.2.2.2, Option.some.injEq] at hs
+        subst hs; exact ⟨hc, he, rfl⟩
+      | updateMaxCost mc =>
+        simp only [Cache.step, Option.some.injEq] at hs
+        subst hs; exact ⟨hc, he, rfl⟩
+      | procItem est refills => simp [Cache.step, (dead est refills 0 []).1] at hs
+      | procClear => simp [Cache.step, (dead (fun _ => 0) [] 0 []).2.1] at hs
+      | procTick now order => simp [Cache.step, (dead (fun _ => 0) [] now order).2.2.1] at hs
+      | procStop => simp [Cache.step, (dead (fun _ => 0) [] 0 []).2.2.2] at hs
+      | policyWorker =>
+        simp only [Cache.step, Cache.policyWorkerStep] at hs
+        cases hp : c.pq with
+        | nil => simp [hp] at hs
+        | cons b rest =>
+          simp only [hp, Option.map_some, Option.some.injEq] at hs
+          subst hs; exact ⟨hc, he, rfl⟩
+      | policyClose =>
+        simp only [Cache.step, Option.some.injEq] at hs
+        subst hs; exact ⟨hc, he, rfl⟩
+    cases hs : c.step su a with
+    | none => simpa using ih c hc he
+    | some c1 =>
+      obtain ⟨h1, h2, h3⟩ := key c1 hs
+      obtain ⟨i1, i2, i3⟩ := ih c1 h1 h2
+      exact ⟨by simpa using i1, by simpa using i2, by simpa using i3.trans h3⟩
+
+/-- **a full close, whatever else is going on**: `close()` publishes the flag, the processor takes the
+stop branch — with any run of other actors before, between and after — and from then on the cache is
+frozen in the state the stop iteration left. -/
+theorem close_then_anything (su : Nat → Nat → Bool) (c c1 : Cache) (id : Nat) (mid later : List Act)
+    (hstop : (Cache.run su (c.closeBegin id).1 mid).procStop = some c1)
+    (hopen : c.closed = false) :
+    (Cache.run su c1 later).closed = true ∧ (Cache.run su c1 later).procExited = true ∧
+    frozen (Cache.run su c1 later) = frozen c1 := by
+  have h0 : (c.closeBegin id).1.closed = true := by simp [Cache.closeBegin, hopen]
+  have h1 := run_closed_mono su mid _ h0
+  have hc1 : c1.closed = true ∧ c1.procExited = true := by
+    unfold Cache.procStop at hstop
+    split at hstop
+    · cases hstop
+    · simp only [Option.some.injEq] at hstop; subst hstop; exact ⟨h1, rfl⟩
+  exact closed_is_final su later c1 hc1.1 hc1.2
+
 -- non-vacuity -------------------------------------------------------------------------------
 def exCfg : Cfg := { itemSize := 56, ignoreInternal := false, bufCap := 4, ringCap := 2, pqCap := some 3, metricsOn := false }
 example : ((Cache.init exCfg 100 5).closeBegin 1).1.closed = true := by decide
@@ -91,3 +327,5 @@ end Stretto.C12
 #print axioms Stretto.C12.exited_processor_is_inert
 #print axioms Stretto.C12.waiter_can_return_after_stop
 #print axioms Stretto.C12.late_waiter_does_not_block
+#print axioms Stretto.C12.closed_is_final
+#print axioms Stretto.C12.close_then_anything
